@@ -51,13 +51,38 @@ Theorem C12_keys_disjoint : forall st c1 s1 t b1 acts c2 b2,
 Proof. exact keys_disjoint. Qed.
 Print Assumptions C12_keys_disjoint.
 
-(* ... and keys differ when the function, the thread or (for a method) the instance differs *)
+(* ... and keys differ when the function object (another def statement, or another execution of
+   the same def statement: a closure from a factory called again, a name defined again - equal
+   __module__ and __qualname__), the thread or (for a method) the instance differs *)
 Theorem C12_keys_differ : forall v c1 c2 k1 k2,
   key_of v c1 = Some k1 -> key_of v c2 = Some k2 ->
-  (cfn c1 <> cfn c2 \/ cthread c1 <> cthread c2 \/ (cfn c1 = 4 /\ cfn c2 = 4 /\ cinst c1 <> cinst c2)) ->
+  (cfn c1 <> cfn c2 \/ cgen c1 <> cgen c2 \/ cthread c1 <> cthread c2 \/
+   (cfn c1 = 4 /\ cfn c2 = 4 /\ cinst c1 <> cinst c2)) ->
   k1 <> k2.
 Proof. exact keys_differ. Qed.
 Print Assumptions C12_keys_differ.
+
+(* T3 on tasks: in any history two calls of different function objects (in particular same-named
+   ones), on different threads or of a method on different instances never receive the same task *)
+Theorem C12_distinct_callables_never_share : forall st c1 s1 t1 b1 acts c2 t2 b2,
+  reach Repaired st ->
+  micro Repaired st (ACall c1) = (s1, MTask t1 b1) ->
+  snd (micro Repaired (fst (run_micro Repaired s1 acts)) (ACall c2)) = MTask t2 b2 ->
+  (cfn c1 <> cfn c2 \/ cgen c1 <> cgen c2 \/ cthread c1 <> cthread c2 \/
+   (cfn c1 = 4 /\ cfn c2 = 4 /\ cinst c1 <> cinst c2)) ->
+  t1 <> t2.
+Proof. exact distinct_never_share. Qed.
+Print Assumptions C12_distinct_callables_never_share.
+
+(* ... and dirty() issued for one of them leaves the other's in-flight task registered (so by T1
+   it keeps being shared) *)
+Theorem C12_dirty_of_other_callable_keeps_task : forall st c0 k t c,
+  key_of Repaired c0 = Some k -> find k (reg st) = Some t ->
+  (cfn c0 <> cfn c \/ cgen c0 <> cgen c \/ cthread c0 <> cthread c \/
+   (cfn c0 = 4 /\ cfn c = 4 /\ cinst c0 <> cinst c)) ->
+  find k (reg (fst (micro Repaired st (ADirty c)))) = Some t.
+Proof. exact dirty_of_other_keeps. Qed.
+Print Assumptions C12_dirty_of_other_callable_keeps_task.
 
 (* T4.  Two well-formed spellings (Python's own binding succeeds) get the same key component iff
    they bind the same arguments: for every signature with the repaired keygetter, for signatures
@@ -100,8 +125,19 @@ Print Assumptions C12_driver_reachable.
 (* the hypotheses are satisfiable: a concrete history in which a second spelling shares and a call
    after completion gets a new task *)
 Example C12_example_share :
-  let c1 := mkCall 0 0 0 [AInt 1] [] in
-  let c2 := mkCall 0 0 0 [] [(N_B, AInt 0); (N_A, AInt 1)] in
+  let c1 := mkCall 0 0 0 0 [AInt 1] [] in
+  let c2 := mkCall 0 0 0 0 [] [(N_B, AInt 0); (N_A, AInt 1)] in
   snd (run_micro Repaired init [ACall c1; ARun 0; AGate 0; ACall c2; ARun 0; AFinish 0 (Ok (VInt 7)); ACall c1])
   = [MTask 0 true; MUnit; MUnit; MTask 0 false; MUnit; MUnit; MTask 1 true].
 Proof. exact example_share. Qed.
+
+(* two executions of one def statement (same module and qualname, different function objects):
+   equal arguments on one thread give separate tasks, dirty() of one leaves the other shared *)
+Example C12_example_generations :
+  let c1 := mkCall 0 0 0 0 [AInt 1] [] in
+  let c2 := mkCall 0 0 1 0 [AInt 1] [] in
+  (cfn c1 <> cfn c2 \/ cgen c1 <> cgen c2 \/ cthread c1 <> cthread c2 \/
+   (cfn c1 = 4 /\ cfn c2 = 4 /\ cinst c1 <> cinst c2)) /\
+  snd (run_micro Repaired init [ACall c1; ACall c2; ADirty c2; ACall c1; ACall c2])
+  = [MTask 0 true; MTask 1 true; MUnit; MTask 0 false; MTask 2 true].
+Proof. exact example_generations. Qed.
